@@ -237,6 +237,8 @@ class Engine(Interp):
                     if tagging:
                         s2.part = base_part + ((bi, "br", val),)
                     outs.append((tgt, s2))
+                    if self.ctx.observers:
+                        self.ctx.emit("edge", frame=fr, bb=bi, target=tgt, st=s2, discr=d)
                 except Diverge:
                     pass
         # otherwise: none of the listed values
@@ -256,6 +258,8 @@ class Engine(Interp):
             if tagging:
                 s2.part = base_part + ((bi, "br", "else"),)
             outs.append((other, s2))
+            if self.ctx.observers:
+                self.ctx.emit("edge", frame=fr, bb=bi, target=other, st=s2, discr=d)
         except Diverge:
             pass
         return outs
